@@ -105,6 +105,41 @@ def two_byte_signed_scaled(T, v):
     _check(T, v, lambda p: T.resolution, nearest=True)
 
 
+def _floor_cases(tier, T):
+    lo, hi = int(T.value_min), int(T.value_max)
+    res = T.resolution
+    step = 1 if tier != "quick" else 7
+    for r in list(range(lo - 3, lo + 4)) + list(range(lo + 4, hi - 3, step)) + list(range(hi - 3, hi + 4)):
+        for off in (0.0, 0.3, 0.5, 0.99, -0.01):
+            v = (r + off) * res
+            yield (T, v)
+            if float(v).is_integer():
+                yield (T, int(v))
+    for v in (-1, -res + 1, -res, -res - 1, 10**9, -(10**9)):
+        yield (T, v)
+
+
+@standin("C09", cases=_floor_cases, family=lambda: [dict(T=c) for c in numeric_classes() if module_of(c) == "dpt_7"], kind="enum-native", exhaustive=False, bound="DPT 7.x (2 octet unsigned, resolution 1/10/100; the codec floors): raw values around both ends densely and every 7th (quick) / every (thorough) raw value in between x 5 sub-step offsets, as floats and as integers, plus small negative values and huge ones")
+def two_byte_unsigned_scaled(T, v):
+    """to_knx takes the value as an integer (int(): a fraction is dropped, so -0.7 counts as 0 - the declared
+    unit is the integer) and floors it to the resolution: accepted exactly when that integer lies in
+    value_min .. value_max + one step - 1 (physical units), decoding to the step at or below it; everything
+    else - in particular every negative integer, however small - is refused."""
+    lo, hi = physical_range(T)
+    res = T.resolution
+    if v != v or v in (float("inf"), float("-inf")):
+        return
+    iv = int(v)
+    try:
+        p = T.to_knx(v)
+    except ConversionError:
+        assert not (lo <= iv < hi + res), (T.__name__, v, "in range but refused")
+        return
+    assert lo <= iv < hi + res, (T.__name__, v, "outside the range but encoded", p.value)
+    d = T.from_knx(p)
+    assert d <= iv < d + res, (T.__name__, v, d, "not the step at or below the input")
+
+
 def _percent_cases(tier, T):
     lo, hi = T.value_min, T.value_max
     n = 20000 if tier == "quick" else 400000
